@@ -1195,6 +1195,9 @@ def m_iter_adapt(ctx):
     if op == 'filter_map':
         o = Obj('FilterMap', kind='mapiter'); o.attrs['inner'] = it; o.attrs['f'] = ctx.args[1]; o.attrs['filter'] = True
         return [(None, o)]
+    if op == 'flat_map':
+        o = Obj('FlatMap', kind='mapiter'); o.attrs['inner'] = it; o.attrs['f'] = ctx.args[1]; o.attrs['flat'] = True
+        return [(None, o)]
     if op == 'rev' and it.kind == 'iter':
         it.attrs['rev'] = not it.attrs.get('rev', False); return [(None, it)]
     if op in ('cloned', 'copied') and it.kind == 'iter':
@@ -1247,7 +1250,7 @@ def m_iter_consume(ctx):
         if inner.kind == 'mapiter':
             raise MirError('nested lazy iterator adaptors')
         xs = drain_iter(ex, st, inner)
-        c = Cont('mapcollect', pending=xs, done=[], f=it.attrs['f'], op=op, callee=ctx.callee, args=ctx.args[1:], dest=ctx.dest, nxt=ctx.nxt, ret_ty=ctx.ret_ty, filter=bool(it.attrs.get('filter')))
+        c = Cont('mapcollect', pending=xs, done=[], f=it.attrs['f'], op=op, callee=ctx.callee, args=ctx.args[1:], dest=ctx.dest, nxt=ctx.nxt, ret_ty=ctx.ret_ty, filter=bool(it.attrs.get('filter')), flat=bool(it.attrs.get('flat')))
         return _mapcollect_step(ex, st, c, ctx.work)
     xs = drain_iter(ex, st, it)
     return consume_list(ctx, op, xs, ctx.args[1:], ctx.ret_ty, ctx.dest, ctx.nxt)
@@ -1264,8 +1267,34 @@ def _mapcollect_step(ex, st, c, work):
     return consume_list(ctx2, d['op'], d['done'], d['args'], d['ret_ty'], d['dest'], d['nxt'])
 
 
+def _flat_inner_step(ex, st, c, work):
+    d = c.data
+    if d['pending']:
+        x = d['pending'].pop(0)
+        ex.call_closure(st, d['f'], [x], d['dest'], d['nxt'], c)
+        return PUSHED
+    return _mapcollect_step(ex, st, d['parent'], work)
+
+
+def _resume_flat_inner(ex, st, cont, rv, work):
+    cont.data['parent'].data['done'].append(rv)
+    return 'model', _flat_inner_step(ex, st, cont, work)
+
+
+RESUMERS['flatinner'] = _resume_flat_inner
+
+
 def _resume_mapcollect(ex, st, cont, rv, work):
-    if cont.data.get('filter'):
+    if cont.data.get('flat'):
+        sub = ex.deref_val(st, rv)
+        if isinstance(sub, Obj) and sub.kind in ('iter', 'range'):
+            cont.data['done'].extend(drain_iter(ex, st, sub))
+        elif isinstance(sub, Obj) and sub.kind == 'mapiter' and not sub.attrs.get('filter') and not sub.attrs.get('flat') and sub.attrs['inner'].kind != 'mapiter':
+            c2 = Cont('flatinner', pending=drain_iter(ex, st, sub.attrs['inner']), f=sub.attrs['f'], parent=cont, dest=cont.data['dest'], nxt=cont.data['nxt'])
+            return 'model', _flat_inner_step(ex, st, c2, work)
+        else:
+            raise MirError(f'flat_map closure returned an unmodelled iterator {sub!r}')
+    elif cont.data.get('filter'):
         if not isinstance(rv, Obj) or rv.discr not in ('Some', 'None'):
             raise MirError('filter_map closure returned an Option with a symbolic variant')
         if rv.discr == 'Some':
